@@ -191,6 +191,29 @@ func (x *Exec) runTop() {
 	x.obls = append(x.obls, &Obligation{Name: shortKey(x.key) + "#vacuity:requires", Func: x.key, Kind: "vacuity", Label: "requires",
 		Rank: x.rank, Hyps: append([]Term(nil), st.pc...), Goal: TFalse, decls: x.decls, prog: x, Canary: true, inputs: x.inputs})
 	fr.ret = func(st2 *State, res []Value) { x.atReturn(st2, res) }
+	// proof by cases on an entry expression
+	for _, cl := range c.Clauses {
+		if cl.Kind != "cases" {
+			continue
+		}
+		subject := env.eval(cl.E)
+		var others []Term
+		for _, ve := range cl.Exprs {
+			eq := env.valueEq(subject, env.eval(ve), cl.E)
+			others = append(others, Not(eq))
+			s2 := st.clone()
+			s2.frames[0].ret = fr.ret
+			s2.assume(eq)
+			s2.path = append(s2.path, "case:"+ve.String())
+			if !s2.dead {
+				x.paths++
+				x.execBlock(s2, nil, fn.Blocks[0])
+			}
+		}
+		st.assume(And(others...))
+		st.path = append(st.path, "case:else")
+		break
+	}
 	x.execBlock(st, nil, fn.Blocks[0])
 }
 
@@ -213,25 +236,17 @@ func (x *Exec) concretizeLen(st *State, env *Env, e *Expr, k int) {
 		}
 		fr.names[e.Name] = v
 	case "sel":
-		base := env.eval(e.Args[0])
-		p, ok := base.(PtrV)
+		np, ok := env.lvalue(e)
 		if !ok {
-			x.unsupportedf("rank variable %s: base is not a pointer", e)
+			x.unsupportedf("rank variable %s: cannot resolve", e)
 		}
-		t := typeAtPath(p.Root, p.Path)
-		stt := t.Underlying().(*types.Struct)
-		path, _ := findField(stt, e.Name)
-		if path == nil {
-			x.unsupportedf("rank variable %s: no such field", e)
+		cur, ok := x.loadPtr(st, np).(SliceV)
+		if !ok {
+			x.unsupportedf("rank variable %s is not a slice", e)
 		}
-		np := p
-		np.Path = append(append([]int(nil), p.Path...), path...)
-		cur := x.loadPtr(st, np).(SliceV)
 		st.assume(Eq(cur.Len, lit))
 		cur.Len = lit
-		x.assignAll = true
 		x.storePtrNoCheck(st, np, cur)
-		x.assignAll = false
 	default:
 		x.unsupportedf("rank variable %s", e)
 	}
@@ -329,22 +344,11 @@ func (e *Env) evalRegion(ex *Expr) []Region {
 			return []Region{{IsElem: true, Arr: sv.Arr, ElemKey: typeKey(sv.Elem), Desc: ex.String()}}
 		}
 	case "sel":
-		base := e.eval(ex.Args[0])
-		p, ok := base.(PtrV)
-		if !ok || p.Kind != PHeap {
-			e.fail("assigns: %s: base is not a heap pointer", ex)
+		np, ok := e.lvalue(ex)
+		if !ok || np.Kind != PHeap {
+			e.fail("assigns: %s: cannot resolve to a heap field", ex)
 		}
-		t := typeAtPath(p.Root, p.Path)
-		stt, ok := t.Underlying().(*types.Struct)
-		if !ok {
-			e.fail("assigns: %s: not a struct", ex)
-		}
-		path, _ := findField(stt, ex.Name)
-		if path == nil {
-			e.fail("assigns: %s: no field", ex)
-		}
-		full := append(append([]int(nil), p.Path...), path...)
-		return []Region{{Ref: p.Ref, RootKey: typeKey(p.Root), PathPref: pathName(p.Root, full), Desc: ex.String()}}
+		return []Region{{Ref: np.Ref, RootKey: typeKey(np.Root), PathPref: pathName(np.Root, np.Path), Desc: ex.String()}}
 	}
 	v := e.eval(ex)
 	switch u := v.(type) {
@@ -492,7 +496,6 @@ func (x *Exec) specApply(e *Env, f *SpecFn, vals []Value) Value {
 	}
 	return Scalar{App(retSort, name, args...)}
 }
-
 
 type heapFormal struct {
 	m     mapRef
